@@ -485,7 +485,7 @@ def oracle_c11(ctx: Ctx):
             if op == "~=" and "." not in lit:
                 continue
             atoms.append(("python_version", op, lit))
-        for lit in ["3.6", "3.7", "3.7.0", "3.7.1", "3.10.2", "3"]:
+        for lit in ["3.6", "3.7", "3.7.0", "3.7.1", "3.10.2", "3", "3.9a1", "3.7.0rc1", "3.8.post1", "3.9.dev0"]:
             if op == "~=" and "." not in lit:
                 continue
             atoms.append(("python_full_version", op, lit))
@@ -516,7 +516,7 @@ def oracle_c11(ctx: Ctx):
                 break
     simple = []
     for op in ["==", "!=", "<", "<=", ">", ">=", "~="]:
-        for lit in ["3", "3.6", "3.7.1", "3.10"]:
+        for lit in ["3", "3.6", "3.7.1", "3.10", "3.9a1", "3.7.0rc1", "3.8.post1", "3.9.dev0", "3b2"]:
             if op == "~=" and "." not in lit:
                 continue
             simple.append(op + lit)
@@ -674,6 +674,7 @@ def _c10_class(probe, hist, warm=None, cold=None):
 
 
 CORPUS_TEXTS = [
+    'python_version >= "3.8" and python_full_version >= "3.9a1"', 'python_full_version > "3.9rc1" and python_version >= "3.8"', 'python_full_version >= "3.8.post1" and python_version >= "3.8"',
     '"3.8" <= python_version', 'python_version >= "3.8"', 'os_name == "a" or os_name == "b"', 'os_name != "a"',
     'python_version ~= "3.8"', 'python_full_version ~= "3.8.1"', 'python_version in "3.6, 3.7"', 'python_version not in "3.6, 3.7"',
     'extra == "foo" or extra == "bar"', 'extra != "foo"', 'sys_platform in "linux darwin"', 'sys_platform not in "win"',
@@ -684,6 +685,9 @@ CORPUS_TEXTS = [
     'python_full_version < "3.0" or python_full_version >= "4.0"',
 ]
 CORPUS_PAIRS = [
+    ('python_version >= "3.8"', 'python_full_version >= "3.9a1"'),            # from_specifier padding of a suffixed operand (fixed e817af8)
+    ('python_version >= "3.8"', 'python_full_version > "3.9rc1"'),
+    ('python_version < "3.12"', 'python_full_version >= "3.9.dev0"'),
     ('sys_platform == "linux" and os_name == "nt" or sys_platform == "win32"', '<empty>'),
     ('(sys_platform == "linux" or os_name == "nt") and sys_platform != "win32"', ''),
     ('sys_platform == "linux" and os_name == "nt" or python_version >= "3.8" and extra == "foo"', '<empty>'),
